@@ -18,4 +18,5 @@ for f in sorted(glob.glob('/verif/evidence/*.json')):
 m = json.load(open('/verif/MANIFEST.json')); jsonschema.validate(m, json.load(open('/root/.vp/MANIFEST.schema.json')))
 print("evidence and manifest valid")
 PY
+[ $rc -ne 0 ] && echo "RUNALL: SOME CHECK FAILED -- do not commit"
 exit $rc
